@@ -258,6 +258,14 @@ def _run_setup(ctx: Ctx, c: Collector) -> None:
         pr.append("setup_done is not sent to every simulator")
     elif procs and sd[0].idx > procs[0].idx:
         pr.append("simulator processes are started before setup_done")
+    # simulators can talk to mosaik as soon as run() suspends for the first time (setup_done is a request that a
+    # simulator may answer with set_event): what MosaikRemote reads from the world must be there by then
+    aws = [e.idx for e in s.of_kind("await")]
+    if aws:
+        for what, sts in (("until", st_u), ("rt_factor", st_r)):
+            if sts and sts[0].idx > min(aws):
+                pr.append(f"world.{what} is only set after run() has suspended for the first time (setup_done): a set_event request made while the simulators are "
+                          f"being set up reads a world without {what}")
     c.add("run", RUN, "until / rt_factor validation and scaling / one process per simulator", VIOLATED if pr else DISCHARGED, "; ".join(pr), fi.loc)
 
 
